@@ -11,7 +11,7 @@ READY = True
 CLAIM = {
     "text": "Lean theorems for every base token list and every relative pointer of the draft grammar (any number of origin/offset "
             "digits): printing a parsed relative pointer returns its text, application equals the draft's definition on reference tokens, "
-            "and the forbidden applications are exactly those refused with a relative-pointer error; the model of RelativeJSONPointer is "
+            "the same for a base pointer that exists already, whatever characters its tokens hold (rel_apply_parts: nothing is decoded twice), the library's negative index tokens stated outright (negative_base_offset), and the forbidden applications are exactly those refused with a relative-pointer error; the model of RelativeJSONPointer is "
             "tied to pointer.py differentially over the property's complete grid, and the implementation is compared with the executable "
             "draft specification on every case.",
     "note": "Trusted: Lean kernel; model JP.RelPointer validated differentially; unicode-escape codec abstract. An offset applied to a final "
